@@ -234,6 +234,13 @@ def fix_unconventional_class_definitions(source: str) -> str:
     for (classdef, *_), *assign_matches in core.walk_sequence(root, *template, expand_last=True):
         transaction += 1
         new_assigns = []
+        if any(
+            name.id == classdef.name
+            for assign, *_ in assign_matches
+            for name in core.walk(assign.value, ast.Name)
+        ):
+            continue  # Node.root = Node() needs the finished class
+
         for assign, *_ in assign_matches:
             new_assign = ast.Assign(targets=[ast.Name(id=assign.targets[0].attr)], value=assign.value)
             new_assign = ast.copy_location(new_assign, assign)
